@@ -401,7 +401,13 @@ func run[P any](t *testing.T, s Spec[P]) {
 				fmt.Printf("replay %s: unreadable plan (%v), skipped\n", f, err)
 				continue
 			}
+			// A replay may kill the process (panic on a background goroutine): leave
+			// the plan where the driver looks for the in-flight case.
+			inflightR := filepath.Join(env.Dir, "evidence", ".inflight", fmt.Sprintf("%s.%d.json", s.ID, env.Shard))
+			os.MkdirAll(filepath.Dir(inflightR), 0o755)
+			os.WriteFile(inflightR, b, 0o644)
 			out, err := safeExec(s.Exec, p)
+			os.Remove(inflightR)
 			out.Labels = append(out.Labels, "regression-replay")
 			record(p, b, out)
 			if err != nil {
